@@ -63,9 +63,10 @@ func nics() []nicCfg {
 }
 
 type replay struct {
-	Kind string `json:"kind"`
-	NIC  string `json:"nic"`
-	Hex  string `json:"hex"`
+	Kind  string `json:"kind"`
+	NIC   string `json:"nic"`
+	Hex   string `json:"hex"`
+	Spare int    `json:"spare"`
 }
 
 func offOf(base, s []byte) int {
@@ -73,12 +74,18 @@ func offOf(base, s []byte) int {
 }
 
 // checkFrame verifies aliasing and allocation freedom for one accepted frame. Returns a violation signature/what.
-func checkFrame(s *packet.Session, name string, f []byte) (sig, what string, class string) {
+func checkFrame(s *packet.Session, name string, f []byte, spare int) (sig, what string, class string) {
 	want := refnet.Classify(f)
 	if want.Err != refnet.No {
 		return "", "", ""
 	}
-	buf := append([]byte(nil), f...)
+	// spare > 0: the frame sits at the start of a larger read buffer whose remaining bytes hold stale data
+	whole := make([]byte, len(f)+spare)
+	for i := range whole {
+		whole[i] = 0xa5
+	}
+	copy(whole, f)
+	buf := whole[:len(f)]
 	frame, err := s.Parse(buf)
 	if err != nil {
 		return "", "", ""
@@ -112,6 +119,9 @@ func checkFrame(s *packet.Session, name string, f []byte) (sig, what string, cla
 	}
 	if frame.SrcAddr.MAC != nil && offOf(buf, frame.SrcAddr.MAC) != 6 {
 		return "alias-offset|SrcAddr.MAC", name + ": SrcAddr.MAC does not alias the frame", ""
+	}
+	if spare > 0 {
+		return "", "", "" // allocation is measured on the exact-capacity variant only
 	}
 	// steady state: the source is now tracked (or untracked by rule); parsing again must not allocate
 	s.Parse(buf)
@@ -153,7 +163,7 @@ func main() {
 		for _, n := range nics() {
 			if n.name == r.Replay.NIC {
 				s, _ := packet.Config{Conn: nullConn{}, NICInfo: n.nic}.NewSession("")
-				if sig, what, _ := checkFrame(s, "replay", f); sig != "" {
+				if sig, what, _ := checkFrame(s, "replay", f, r.Replay.Spare); sig != "" {
 					fmt.Fprintf(os.Stderr, "REPRODUCED property=C16 %s: %s\n", sig, what)
 					os.Exit(1)
 				}
@@ -164,7 +174,7 @@ func main() {
 	}
 	c := core.NewCtx(*prop, *tier, *job, *shard, *nshards, *out)
 	c.Res.Level = "exploration"
-	c.Res.Rule = "every full length frame template of every PayloadID class and address family (the C01/C02 template set: EtherTypes x source MAC classes own/router/multicast/client, on-LAN/off-LAN/zero sources, all classified UDP ports, TCP, ICMP, ARP, VLAN, long frames) that the reference decoder accepts, under each NIC configuration; per frame: data pointer of every view == &buf[reference offset], no view beyond the frame, write-through in both directions, and testing.AllocsPerRun(100, Parse)==0 once the source is tracked. distinct non-trivial = distinct accepted frames x NIC configuration"
+	c.Res.Rule = "every full length frame template of every PayloadID class and address family (the C01/C02 template set: EtherTypes x source MAC classes own/router/multicast/client, on-LAN/off-LAN/zero sources, all classified UDP ports, TCP, ICMP, ARP, VLAN, long frames) that the reference decoder accepts, under each NIC configuration; per frame: data pointer of every view == &buf[reference offset], no view beyond the frame (also when the frame sits in a larger read buffer with stale bytes behind it, and when a UDP length field claims more than was received), write-through in both directions, and testing.AllocsPerRun(100, Parse)==0 once the source is tracked. distinct non-trivial = distinct accepted frames x NIC configuration"
 	c.Res.Assumptions = []string{"runs on the un-instrumented build of /repo's working tree (allocation counts of the shimmed build would measure the shims)", "the class space is finite and fully enumerated; the allocation count is a deterministic measurement per class"}
 	cfgs := nics()
 	if *tier != "thorough" {
@@ -185,7 +195,7 @@ func main() {
 			}
 			c.Progress(n.name + " " + t.Name)
 			c.Count("evaluations", 1)
-			sig, what, class := checkFrame(s, n.name+"/"+t.Name, t.Frame)
+			sig, what, class := checkFrame(s, n.name+"/"+t.Name, t.Frame, 0)
 			if class != "" {
 				c.Count("measured_"+class, 1)
 				c.Distinct(append([]byte(n.name), t.Frame...))
@@ -193,6 +203,22 @@ func main() {
 			}
 			if sig != "" {
 				c.Violate(sig, what, replay{Kind: "frame", NIC: n.name, Hex: hex.EncodeToString(t.Frame)})
+			}
+			// the same frame inside a larger read buffer, and (UDP) with a length field that claims more than was received
+			variants := [][]byte{t.Frame}
+			if d := refnet.Classify(t.Frame); d.Err == refnet.No && d.OffUDP != 0 && d.OffUDP+6 <= len(t.Frame) {
+				lying := append([]byte(nil), t.Frame...)
+				n := int(lying[d.OffUDP+4])<<8 | int(lying[d.OffUDP+5])
+				n += 24
+				lying[d.OffUDP+4], lying[d.OffUDP+5] = byte(n>>8), byte(n)
+				variants = append(variants, lying)
+			}
+			for _, fr := range variants {
+				c.Count("evaluations", 1)
+				c.Count("spare_capacity_variants", 1)
+				if sig, what, _ := checkFrame(s, n.name+"/"+t.Name+"+spare", fr, 64); sig != "" {
+					c.Violate(sig, what, replay{Kind: "frame", NIC: n.name, Hex: hex.EncodeToString(fr), Spare: 64})
+				}
 			}
 		}
 		s.Close()
